@@ -25,33 +25,43 @@ func runC10(a *A) {
 		sess := a.Named("window", "session")
 		la := a.FieldOf(sess, "lastActive")
 		n := 0
-		for _, st := range storesToField(add, la) {
-			n++
-			v := TermOf(st.Val, nil).String()
-			// an End with term Add(v, recv.timeout) must be set together with this store: the End-setting
-			// instruction dominates the store or is dominated by it
-			found := false
-			allInstrs(add, func(in ssa.Instruction) {
-				var cand *Term
-				switch x := in.(type) {
-				case *ssa.Store:
-					if fa, ok := x.Addr.(*ssa.FieldAddr); ok {
-						if s := derefStruct(fa.X.Type()); s != nil && s.Field(fa.Field).Name() == "End" && isNamedType(fa.X.Type(), typesPkg, "TimeSlot") {
-							cand = TermOf(x.Val, nil)
+		// sessions are built and extended in Add or in a method of SessionWindow it calls (one level)
+		hosts := []*ssa.Function{add}
+		for _, h := range a.helpersOf(add) {
+			if r := h.Signature.Recv(); r != nil && types.Identical(derefT(r.Type()), types.Type(a.Named("window", "SessionWindow"))) {
+				hosts = append(hosts, h)
+			}
+		}
+		for _, host := range hosts {
+			host := host
+			for _, st := range storesToField(host, la) {
+				n++
+				v := TermOf(st.Val, nil).String()
+				// an End with term Add(v, recv.timeout) must be set together with this store: the End-setting
+				// instruction dominates the store or is dominated by it
+				found := false
+				allInstrs(host, func(in ssa.Instruction) {
+					var cand *Term
+					switch x := in.(type) {
+					case *ssa.Store:
+						if fa, ok := x.Addr.(*ssa.FieldAddr); ok {
+							if s := derefStruct(fa.X.Type()); s != nil && s.Field(fa.Field).Name() == "End" && isNamedType(fa.X.Type(), typesPkg, "TimeSlot") {
+								cand = TermOf(x.Val, nil)
+							}
+						}
+					case *ssa.Call:
+						if cal := x.Call.StaticCallee(); cal != nil && cal.Name() == "NewTimeSlot" && len(x.Call.Args) == 2 {
+							cand = TermOf(x.Call.Args[1], nil)
 						}
 					}
-				case *ssa.Call:
-					if cal := x.Call.StaticCallee(); cal != nil && cal.Name() == "NewTimeSlot" && len(x.Call.Args) == 2 {
-						cand = TermOf(x.Call.Args[1], nil)
+					if cand != nil && isAddOf(cand, v, "window.SessionWindow", "timeout") && (dominatesInstr(in, st) || dominatesInstr(st, in)) {
+						found = true
 					}
-				}
-				if cand != nil && isAddOf(cand, v, "window.SessionWindow", "timeout") && (dominatesInstr(in, st) || dominatesInstr(st, in)) {
-					found = true
-				}
-			})
-			a.Check(found, fname(add)+"#end=last+timeout", st.Pos(),
-				"lastActive = "+v+" and the slot end is set to "+v+".Add(timeout)",
-				"lastActive is set to "+v+" but no slot End = "+v+".Add(timeout) is stored: window_end and expiry would not follow the last event")
+				})
+				a.Check(found, fname(add)+"#end=last+timeout", st.Pos(),
+					"lastActive = "+v+" and the slot end is set to "+v+".Add(timeout)",
+					"lastActive is set to "+v+" but no slot End = "+v+".Add(timeout) is stored: window_end and expiry would not follow the last event")
+			}
 		}
 		if n == 0 {
 			a.Und(fname(add)+"#end=last+timeout", add.Pos(), "no store to session.lastActive in Add")
@@ -169,10 +179,11 @@ func (a *A) ruleGapSplit() {
 // ruleLateRowOwnGroup: with ALLOWEDLATENESS a late row may update a session that has already been
 // delivered — but only a session of its own group, and every delivered session has to stay findable
 // until its allowance ends:
-//  (a) in handleLateData the append of the row to a fired session is guarded by a comparison that
-//      involves the row's group key (extractSessionCompositeKey of the row);
-//  (b) the key under which a fired session is stored in triggeredSessions involves a counter unique to
-//      the firing (else the group's next fired session overwrites one that is still open).
+//
+//	(a) in handleLateData the append of the row to a fired session is guarded by a comparison that
+//	    involves the row's group key (extractSessionCompositeKey of the row);
+//	(b) the key under which a fired session is stored in triggeredSessions involves a counter unique to
+//	    the firing (else the group's next fired session overwrites one that is still open).
 func (a *A) ruleLateRowOwnGroup() {
 	W := a.Named("window", "SessionWindow")
 	h := a.Method("window", "SessionWindow", "handleLateData")
